@@ -130,6 +130,9 @@ FORMS_R = {
     "nested-second": "{S}(tr('a', 1), len({S}(tr('b', 's'))))",
     "nested-kw": "{S}(tr('a', 's'), k=len({S}(tr('b', 's'))))",
     "nested-both": "{S}(len({S}(tr('a', 's'))), len({S}(tr('b', 's'))))",
+    "second-by-name": "{S}(tr('a', 1), y=tr('b', 2))",
+    "second-by-name-dstar": "{S}(tr('a', 1), **tr('kw', {{'y': 2}}))",
+    "second-by-name-star-dstar": "{S}(*tr('xs', [1]), **tr('kw', {{'y': 2}}))",
 }
 FORMS_N = {
     "one": "{S}(tr('a', 5))",
@@ -143,10 +146,13 @@ FORMS_N = {
     "nested-second": "{S}(tr('a', 1), len({S}(tr('b', 5))))",
     "nested-kw": "{S}(tr('a', 's'), k=len({S}(tr('b', 5))))",
     "nested-both": "{S}(len({S}(tr('a', 5))), len({S}(tr('b', 5))))",
+    "second-by-name": "{S}(tr('a', 1), y=tr('b', 2))",
+    "second-by-name-dstar": "{S}(tr('a', 1), **tr('kw', {{'y': 2}}))",
+    "second-by-name-star-dstar": "{S}(*tr('xs', [1]), **tr('kw', {{'y': 2}}))",
 }
 FAIL_R = "{S}(tr('f', 1.5))"
 SPECIALS = {"recurse": "recurse", "call_next": "call_next", "self-name": "fself", "renamed": "rec"}
-KINDS = ["function", "closure", "pos-default", "kw-default", "method", "lambda-default"]
+KINDS = ["function", "closure", "pos-default", "kw-default", "method", "lambda-default", "strict-first"]
 
 FIXED = '''
 def leaf_s(x: str):
@@ -170,6 +176,13 @@ def base(x: int):
 
 '''
 FIXED_M = FIXED.replace("(x", "(self, x")
+# the first position is named differently by every method, which makes it strictly positional; the second one keeps its name
+FIXED_STRICT = FIXED
+for _old, _new in (("leaf_s(x: str)", "leaf_s(a: str)"), ('("S", x)', '("S", a)'), ("leaf_t(x: tuple)", "leaf_t(b: tuple)"), ('("T", x)', '("T", b)'),
+                   ("l2(x: int, y: int)", "l2(c: int, y: int)"), ('("L2", x, y)', '("L2", c, y)'), ("lk(x: str, *, k: int)", "lk(d: str, *, k: int)"),
+                   ('("K", x, k)', '("K", d, k)'), ("base(x: int)", "base(e: int)"), ('("B", x)', '("B", e)')):
+    assert _old in FIXED_STRICT, _old
+    FIXED_STRICT = FIXED_STRICT.replace(_old, _new)
 
 
 def indent(text, n):
@@ -187,6 +200,8 @@ def make_source(context, form, special, kind):
     body = body.replace("{{", "{").replace("}}", "}")
     if kind == "function":
         src = FIXED + "def tested(x: int):\n" + indent(body, 4) + "\n"
+    elif kind == "strict-first":
+        src = FIXED_STRICT + "def tested(x: int):\n" + indent(body, 4) + "\n"
     elif kind == "closure":
         src = FIXED + "def make(cv):\n    def tested(x: int):\n        tr('cv', cv)\n" + indent(body, 8) + "\n    return tested\n"
     elif kind == "pos-default":
@@ -284,6 +299,8 @@ def build_ref(src, fname, kind, special):
         """Ordinary callable with the documented meaning of recurse / the function's own name."""
         if "x" in k:
             a = (k.pop("x"),) + a
+        if "y" in k and len(a) == 1:
+            a = a + (k.pop("y"),)
         if k:
             if set(k) == {"k"} and len(a) == 1 and isinstance(a[0], str) and isinstance(k["k"], int):
                 return call_method(glb["lk"], a, k)
@@ -445,6 +462,8 @@ def cases(tier):
         for form in FORMS_R:
             for special in SPECIALS:
                 for kind in KINDS:
+                    if kind == "strict-first" and form == "dstar":
+                        continue  # the first position cannot be given by name there
                     yield context, form, special, kind
     if tier != "quick":
         for context in CONTEXTS:
@@ -487,9 +506,9 @@ def main(tier):
              "f-string, subscript / attribute base, walrus, try/finally, try/except around a failing call, generator, for, with, "
              "decorator, raise after the call, while / assert / augmented and annotated assignment, starred and ** displays, slice, comparison chain, "
              "match subject, yield from, except / else / with bodies, method of a nested class, doubly nested def, lambda in a comprehension, "
-             "nested comprehension, starred assignment, nonlocal target, class body, a call following a completed inner comprehension inside a comprehension iterable / second for clause / class body; thorough: and depth 2 = each of 12 expression contexts around the call inside every statement context, for recurse / call_next on three kinds) x 11 call forms (positional, two, keyword, starred, "
-             "double-starred, nested in the first / a later / a keyword argument / both) x 4 special names (recurse, call_next, the function's own name, a renamed import) x 6 "
-             "function kinds (module-level, closure instantiated twice, positional defaults, keyword-only defaults, method with "
+             "nested comprehension, starred assignment, nonlocal target, class body, a call following a completed inner comprehension inside a comprehension iterable / second for clause / class body; thorough: and depth 2 = each of 12 expression contexts around the call inside every statement context, for recurse / call_next on three kinds) x 14 call forms (positional, two, keyword, starred, second positional by name directly / through ** / with * and **, "
+             "double-starred, nested in the first / a later / a keyword argument / both) x 4 special names (recurse, call_next, the function's own name, a renamed import) x 7 "
+             "function kinds (module-level, a function whose first position is strictly positional (named differently by every method), closure instantiated twice, positional defaults, keyword-only defaults, method with "
              "self, lambda / generator expression in the signature); each built twice from one source text; compared: acceptance, result, exception, order and multiplicity of "
              "argument evaluation (tracer log), generator laziness, defaults, file and line of the raising frame",
         assumptions=["the reference side binds the special names to ordinary Python callables with the documented meaning and never "
